@@ -127,7 +127,7 @@ func runC09(r *Run) {
 	}
 	defer func() {
 		if w != nil {
-			_ = w.Close()
+			_ = recoverPanic(func() { _ = w.Close() }) // best-effort cleanup, also after a failed step
 		}
 	}()
 	m := &walModel{}
